@@ -734,7 +734,6 @@ _FINDING_CLASSES = [
     ("F-c10-linebox-sqrt-negative", _cls_linebox_sqrt_negative),
     ("F-c10-linebox-cancellation-zero", _cls_linebox_cancellation_zero),
     ("F-c10-lineflat-illcond-zero", _cls_lineflat_illconditioned_zero),
-    ("F-c10-linecircle-axis-exact", _cls_linecircle_axis(True)),
     ("F-c10-linecircle-axis-rounding", _cls_linecircle_axis(False)),
     ("F-c10-segcircle-param-illcond", _cls_segcircle_param),
     ("F-c10-circle-axis-band", _cls_circle_axis_band),
@@ -1677,7 +1676,7 @@ def _cond(fname, args):
             d1, d2 = a["segment_end1"] - a["segment_start1"], a["segment_end2"] - a["segment_start2"]
         aa, ee, bb = np.dot(d1, d1), np.dot(d2, d2), np.dot(d1, d2)
         den = aa * ee - bb * bb
-        return min(1e7, aa * ee / den) if den > 0 else 1.0
+        return min(1e7, aa * ee / den) if den > 0 else 1e7
     if fname in ("line_to_plane", "line_segment_to_plane"):
         if fname == "line_to_plane":
             ld = a["line_direction"]
@@ -1805,7 +1804,10 @@ def run_correspondence(ctx, cases, tag):
         # distance has to agree with one of them (points may differ along a degenerate direction)
         if mf["br"] != mq["br"] or _near_decision(fname, args):
             ties[fname] = ties.get(fname, 0) + 1
-            okd = _close(py, mf, tol, ("d",), dsq=dsq)[0] or _close(py, mq, tol, ("d",), dsq=dsq)[0]
+            # (nearly) parallel segments: every clamped s is optimal up to sin(angle)*length, so the distances of the
+            # three evaluations may differ by that much (sin^2 <= 1e-9 in this class)
+            told = max(tol, 4e-5 * sc) if fname in ("line_to_line_segment", "line_segment_to_line_segment") else tol
+            okd = _close(py, mf, told, ("d",), dsq=dsq)[0] or _close(py, mq, told, ("d",), dsq=dsq)[0]
             if okd:
                 continue
         ctx.broke("correspondence", name,
@@ -1845,7 +1847,9 @@ def _near_decision(fname, args):
             d1 = [y - x for x, y in zip(F(args["segment_start1"]), F(args["segment_end1"]))]
             d2 = [y - x for x, y in zip(F(args["segment_start2"]), F(args["segment_end2"]))]
         a, e, b = dot(d1, d1), dot(d2, d2), dot(d1, d2)
-        return abs(a * e - b * b) <= Fraction(1, 10 ** 12) * a * e
+        # sin^2 of the angle between the directions (exact): below 1e-9 the float value of `denom` (relative
+        # rounding error ~1e-16/sin^2 ... of a difference of two products) decides the branch and the parameter s
+        return abs(a * e - b * b) <= Fraction(1, 10 ** 9) * a * e
     if fname in ("plane_to_ellipsoid", "plane_to_cylinder"):
         return False
     if fname in ("plane_to_triangle", "plane_to_rectangle", "plane_to_box"):
@@ -1916,7 +1920,23 @@ QUICK.update({"point_to_triangle": 800, "point_to_ellipsoid": 800, "line_to_tria
 THOROUGH_FACTOR = 8
 
 
+# witnesses of defects that were repaired in /repo: replayed on every run as regression inputs (they carry no
+# finding id any more, so a regression is a VIOLATION)
+REGRESSION_WITNESSES = [
+    # /repo 714bcb1 "fix: line_to_circle returned a point off the circle when the line is the circle's axis"
+    # (was F-c10-linecircle-axis-exact; recorded as fixed in known_findings.json: F-C11-line-circle-axis)
+    ("line_to_circle", {"line_point": [0.0, 0.0, 0.0], "line_direction": [0.6, 0.0, 0.8], "center": [0.0, 0.0, 0.0],
+                        "radius": 1.0, "normal": [0.6, 0.0, 0.8]}),
+    ("line_segment_to_circle", {"segment_start": [0.0, 0.0, 0.0], "segment_end": [1.2, 0.0, 1.6],
+                                "center": [0.0, 0.0, 0.0], "radius": 1.0, "normal": [0.6, 0.0, 0.8]}),
+    ("line_to_circle", {"line_point": [1.0, 2.0, 3.0], "line_direction": [-0.6, 0.0, 0.8], "center": [1.0, 2.0, 3.0],
+                        "radius": 3.0, "normal": [-0.6, 0.0, 0.8]}),
+]
+
+
 def search(ctx):
+    for fn, a in REGRESSION_WITNESSES:
+        check_case(ctx, fn, a, "R", tag="regression-witness")
     for k in _known_list():
         w = k.get("witness", {})
         if w.get("fn") in FUNCS and isinstance(w.get("args"), dict):
